@@ -90,6 +90,41 @@ pub fn concat(parts: &[(&VT, Value)]) -> Result<usize, String> {
 	if pos != buf.len() {
 		return Err(format!("{} bytes left after decoding all parts", buf.len() - pos));
 	}
+	// the same stream read value by value through IoReader over readers that hand out the bytes in pieces
+	// (a value straddling two pieces must not disturb its neighbours), and through an input of unknown length
+	for default in [subjects::inputs::ReadChoice::One, subjects::inputs::ReadChoice::Half] {
+		let mut r = subjects::inputs::ChunkReader::trickle(&buf);
+		r.default = default;
+		for (i, (vt, v)) in parts.iter().enumerate() {
+			let shape = (vt.shape)();
+			match guarded(|| (vt.decode_io)(&mut r)) {
+				Err(p) => return Err(format!("decode of part {} through IoReader ({:?} reads) panicked: {}", i, default, p)),
+				Ok(Err(e)) => return Err(format!("part {} ({}) of a concatenation failed to decode through IoReader ({:?} reads): {}", i, vt.name, default, e)),
+				Ok(Ok(d)) =>
+					if shape.normalize(&d) != shape.normalize(v) {
+						return Err(format!("part {} ({}) decoded through IoReader ({:?} reads) to {} instead of {}", i, vt.name, default, value_short(&d), value_short(v)));
+					},
+			}
+		}
+		if r.pos != buf.len() {
+			return Err(format!("{} bytes left in the reader after decoding all parts through IoReader ({:?} reads)", buf.len() - r.pos, default));
+		}
+	}
+	let mut nl = subjects::inputs::NoLen::new(&buf);
+	for (i, (vt, v)) in parts.iter().enumerate() {
+		let shape = (vt.shape)();
+		match guarded(|| (vt.decode_dyn)(&mut nl)) {
+			Err(p) => return Err(format!("decode of part {} from an input of unknown length panicked: {}", i, p)),
+			Ok(Err(e)) => return Err(format!("part {} ({}) of a concatenation failed to decode from an input of unknown length: {}", i, vt.name, e)),
+			Ok(Ok(d)) =>
+				if shape.normalize(&d) != shape.normalize(v) {
+					return Err(format!("part {} ({}) decoded from an input of unknown length to {} instead of {}", i, vt.name, value_short(&d), value_short(v)));
+				},
+		}
+	}
+	if nl.pos != buf.len() {
+		return Err(format!("{} bytes left in the unknown-length input after decoding all parts", buf.len() - nl.pos));
+	}
 	Ok(buf.len())
 }
 
